@@ -516,7 +516,7 @@ pub fn gen_program(rng: &mut Rng, gc: &GenCfg) -> Program {
                 12 => Op::Clear,
                 13 => Op::Reserve(*rng.pick(&[1u32, 4, 12, 13, 30, 50])),
                 14 => Op::Len,
-                15 => Op::IterAll(*rng.pick(&[IterKind::Iter, IterKind::Keys, IterKind::Values])),
+                15 => Op::IterAll(*rng.pick(&[IterKind::Iter, IterKind::Keys, IterKind::Values, IterKind::Clone])),
                 16 => {
                     if !iter_open {
                         iter_open = true;
